@@ -397,6 +397,46 @@ static Eigen::MatrixXd gen_matrix(vfh::Rng &r, long rows, long cols) {
 }
 static const std::vector<std::string> ELEMENTS = {"H", "C", "N", "O", "S", "Si", "Cl", "F"};
 
+// an overwrite value RELATED to the stored one: equal under operator== (or nearly equal) but different in bits - zeros of
+// opposite sign, neighbouring floating-point numbers, NaNs with another payload, a string of the same length, the same
+// value again. "Writing a name again replaces the old value" for these too. Returns false if the kind has no such variant.
+static bool related_val(vfh::Rng &r, Val &v, std::string &how) {
+  auto flipd = [&](double &d) {
+    int c = (int)r.range(0, 3);
+    uint64_t u;
+    std::memcpy(&u, &d, 8);
+    if (d == 0.0) { d = std::signbit(d) ? 0.0 : -0.0; how = "zero-of-opposite-sign"; return; }
+    if (c == 0) { d = r.coin() ? 0.0 : -0.0; how = "to-a-zero"; return; }  // a later related overwrite then meets a stored zero
+    if (c == 1) { u ^= 1; std::memcpy(&d, &u, 8); how = "last-bit-flipped"; return; }
+    if (c == 2 && std::isnan(d)) { u ^= 0x5555; std::memcpy(&d, &u, 8); how = "nan-other-payload"; return; }
+    how = "same-value-again";
+  };
+  switch (v.kind) {
+    case K_DOUBLE: flipd(v.d); return true;
+    case K_FLOAT: {
+      uint32_t u;
+      std::memcpy(&u, &v.f, 4);
+      if (v.f == 0.0f) { u ^= 0x80000000u; how = "zero-of-opposite-sign"; } else { u ^= 1; how = "last-bit-flipped"; }
+      std::memcpy(&v.f, &u, 4);
+      return true;
+    }
+    case K_VEC_DOUBLE: if (v.vd.empty()) return false; flipd(v.vd[(size_t)r.range(0, (long)v.vd.size() - 1)]); how = "one-element/" + how; return true;
+    case K_MATRIX: case K_VECTORXD: case K_VECTOR3D:
+      if (v.m.size() == 0) return false;
+      flipd(v.m(r.range(0, v.m.rows() - 1), r.range(0, v.m.cols() - 1))); how = "one-element/" + how; return true;
+    case K_VEC_VECTOR3D: if (v.vv3.empty()) return false; flipd(v.vv3[(size_t)r.range(0, (long)v.vv3.size() - 1)][(int)r.range(0, 2)]); how = "one-element/" + how; return true;
+    case K_STRING:
+      if (v.s.empty()) return false;
+      { size_t k = (size_t)r.range(0, (long)v.s.size() - 1); v.s[k] = v.s[k] == 'x' ? 'y' : 'x'; how = "same-length-one-character"; }
+      return true;
+    case K_BOOL: v.b = !v.b; how = "toggled"; return true;
+    case K_INDEX: v.i ^= 1; how = "last-bit-flipped"; return true;
+    case K_INT: v.i32 ^= 1; how = "last-bit-flipped"; return true;
+    case K_UNSIGNED: v.u32 ^= 1u; how = "last-bit-flipped"; return true;
+    default: return false;
+  }
+}
+
 // a value of the given kind with NON-EMPTY shape; shape_of (optional) forces the same shape as an earlier value
 static Val gen_val(vfh::Rng &r, int kind, const Val *shape_of = nullptr) {
   Val v;
@@ -601,7 +641,9 @@ static void run_history(vfh::Reporter &R, long seed, long shard, long h, const s
         Entry e;
         if (overwrite) {
           Entry &old = ledger[r.range(0, (long)ledger.size() - 1)];
-          old.v = gen_val(r, old.v.kind, &old.v);  // same kind, same shape, new content (strings change length)
+          std::string how;
+          if (r.coin(0.4) && related_val(r, old.v, how)) R.counter("overwrites_with_related_value/" + how);
+          else old.v = gen_val(r, old.v.kind, &old.v);  // same kind, same shape, new content (strings change length)
           old.writes++;
           e = old;
           nontrivial = true;
